@@ -78,7 +78,17 @@ Callees == { NVar("sum"), NVar("uppercase"), NVar("substringBefore"), NLambda(<<
              [k |-> "TypedLambda", params |-> <<"x">>, body |-> NVar("x"), short |-> FALSE, sig |-> <<[ty |-> 2, opt |-> 0, sub |-> <<>>]>>, sigout |-> <<>>] }
 FewArgs == { <<>>, <<NStr(<<97, 66>>)>>, <<NNum(IntV(2))>>, <<NPath(<<NName(<<110, 111>>)>>, FALSE)>>, <<NArray(<<NNum(IntV(1)), NNum(IntV(2))>>)>>, <<NObject(<< <<NStr(ka), NNum(IntV(1))>> >>)>>,
              <<NVar("sum")>>, <<NStr(<<97, 66>>), NNum(IntV(1))>>, <<NNull, NNull>>, <<NStr(ka), NStr(kb), NStr(kc)>> }
-CalleeProgs == { NCall(f, a) : f \in Callees, a \in FewArgs }
+\* signatures with the context marker on a later parameter, an optional in the middle, a variadic first: called with every short argument list
+OddSigs == { <<[ty |-> 1, opt |-> 0, sub |-> <<>>], [ty |-> 1, opt |-> 3, sub |-> <<>>], [ty |-> 1, opt |-> 0, sub |-> <<>>]>>,
+             <<[ty |-> 1, opt |-> 0, sub |-> <<>>], [ty |-> 1, opt |-> 0, sub |-> <<>>], [ty |-> 1, opt |-> 3, sub |-> <<>>]>>,
+             <<[ty |-> 2, opt |-> 0, sub |-> <<>>], [ty |-> 2, opt |-> 3, sub |-> <<>>]>>,
+             <<[ty |-> 2, opt |-> 3, sub |-> <<>>], [ty |-> 2, opt |-> 3, sub |-> <<>>]>>,
+             <<[ty |-> 1, opt |-> 1, sub |-> <<>>], [ty |-> 1, opt |-> 0, sub |-> <<>>]>>,
+             <<[ty |-> 1, opt |-> 2, sub |-> <<>>], [ty |-> 2, opt |-> 0, sub |-> <<>>]>>,
+             <<[ty |-> 1, opt |-> 1, sub |-> <<>>], [ty |-> 2, opt |-> 3, sub |-> <<>>], [ty |-> 1, opt |-> 2, sub |-> <<>>]>> }
+OddTyped == { [k |-> "TypedLambda", params |-> SubSeq(<<"a", "b", "c">>, 1, Len(sg)), body |-> NVar("a"), short |-> FALSE, sig |-> sg, sigout |-> <<>>] : sg \in OddSigs }
+CalleeProgs == { NCall(f, a) : f \in Callees \cup OddTyped, a \in FewArgs }
+                \cup { NPath(<<NName(kb), NCall(f, a)>>, FALSE) : f \in OddTyped, a \in FewArgs }
                 \cup { NBlock(<<NAssign("f", f), NCall(NVar("f"), a)>>) : f \in Callees, a \in FewArgs }
                 \cup { NApply(a[1], f) : f \in Callees, a \in {x \in FewArgs : Len(x) = 1} }
                 \cup { NCall(NVar(h), <<NArray(<<NNum(IntV(1)), NStr(<<97, 66>>)>>), f>>) : f \in Callees, h \in {"map", "filter", "reduce", "single", "sort"} }
